@@ -55,6 +55,7 @@ def opOf (intr : List Name) : Sexp → Option Op
   | .list [.atom "remove", t, i] => some (.remove (natOf t) (natOf i))
   | .list [.atom "swap", t, i, n, k, f, w] => some (.swap (natOf t) (natOf i) ⟨nameOf n, kindOf k, ifaceOf f, boolOf w⟩)
   | .list [.atom "args", t, is] => some (.setArgs (natOf t) is.natList)
+  | .list [.atom "swapprops", t, i, j] => some (.swapProps (natOf t) (natOf i) (natOf j))
   | .list [.atom "merge", t, o, sk] => some (.merge (natOf t) (natOf o) sk.natList intr)
   | .list [.atom "attach", t, n] => some (.attach (natOf t) (natOf n))
   | .list [.atom "detach", t] => some (.detach (natOf t))
